@@ -8,7 +8,15 @@ SHIM = r'''
 pub struct TastIdent(pub String);
 impl TastIdent { #[verifier::external_body] pub fn new(s: &String) -> (r: TastIdent) ensures r.0@ == s@ { unimplemented!() } }        // TastIdent::new(&name)
 // lift::State: the counter behind the closure-environment names and the stack of naming contexts; the other fields play no part
-pub struct State { pub next_id: usize, pub context_stack: Vec<String> }
+pub struct State { pub next_id: usize, pub context_stack: Vec<String>, pub types: TypeNames }
+// the names of the program's struct and enum definitions (`self.liftenv.get_struct(..)` / `get_enum(..)`): a set of texts
+#[verifier::external_body] pub struct TypeNames { _p: u64 }
+impl TypeNames {
+    pub uninterp spec fn view(&self) -> Set<Seq<char>>;
+    #[verifier::external_body] pub fn taken(&self, name: &TastIdent) -> (r: bool) ensures r == self@.contains(name.0@) { unimplemented!() }
+}
+// `self.next_id += 1`: ASSUMED not to overflow (fewer than 2^64 environment structs and skipped names)
+#[verifier::external_body] pub fn next_ordinal(n: usize) -> (r: usize) ensures r == n + 1 { unimplemented!() }
 // `format!("{}{}_{}", CLOSURE_ENV_PREFIX, hint, n)` / `format!("{}{}", CLOSURE_ENV_PREFIX, n)`: the name of the n-th environment struct
 pub uninterp spec fn env_name(hint: Option<Seq<char>>, n: int) -> Seq<char>;
 #[verifier::external_body] pub fn fmt_env_hint(hint: &str, n: usize) -> (r: String) ensures r@ == env_name(Some(hint@), n as int) { unimplemented!() }
@@ -32,25 +40,29 @@ pub proof fn lemma_env_names_differ(h1: Option<Seq<char>>, n1: int, h2: Option<S
 
 UNIT = Unit(
     name="U-ENVNAME",
-    properties=["C08"],
+    properties=["C08", "C19"],
     rules=["attrs"],
-    describe="lift::State::fresh_struct_name names the n-th closure environment `closure_env_[<hint>_]<n>` and moves the counter on; nothing between two top-level "
+    describe="lift::State::fresh_struct_name names a closure environment `closure_env_[<hint>_]<n>` for the first ordinal n at or after the counter that no struct / enum of the program is called, and moves the counter past it; nothing between two top-level "
              "functions moves it back (the bracket lambda_lift puts around every function body only pushes and pops the naming context) — so two closures never "
              "share an environment struct, its apply function or its registration, also when they are bound to the same `let` name in two functions or come from "
              "one generic function lifted at two types (lemma_env_names_differ)",
     trusted=["`format!(..)` with the prefix constant is the stub fmt_env_hint / fmt_env (an uninterpreted function of hint and ordinal); ASSUMED: the ordinal can be "
-             "read off the name (axiom_env_name_ordinal); machine arithmetic: the counter stays below usize::MAX (precondition)",
+             "read off the name (axiom_env_name_ordinal); machine arithmetic: the counter does not overflow (stub next_ordinal); the program's type names are the shim TypeNames (get_struct / get_enum both `None`); termination of the skipping loop is not claimed (finitely many types)",
              "State is a shim with the two fields the functions touch (`liftenv: &mut`, `gensym`, `new_functions`, `closure_types` are left out)",
              "FRAGMENTS enter_fn_context / leave_fn_context: the two `if` statements around `transform_expr` in lambda_lift's loop; transform_expr itself (which calls "
              "fresh_struct_name) is not in this unit: that it never lowers the counter is not proved"],
     items=[
         Raw(text=SHIM),
-        Fn(file=L, name="fresh_struct_name", container="State", ret="r",
+        Fn(file=L, name="fresh_struct_name", container="State", ret="r", attrs="#[verifier::exec_allows_no_decreases_clause]",
+           pre_rewrites=[(re.compile(r"self\.liftenv\.get_struct\(&(\w+)\)\.is_none\(\)\s*&&\s*self\.liftenv\.get_enum\(&\1\)\.is_none\(\)"), r"!self.types.taken(&\1)", "*"),
+                         (re.compile(r"self\.next_id (?:\+= 1|= self\.next_id \+ 1);"), "self.next_id = next_ordinal(self.next_id);", "*")],
            rewrites=[('format!("{}{}_{}", CLOSURE_ENV_PREFIX, hint, self.next_id)', "fmt_env_hint(hint, self.next_id)", 1),
                      ('format!("{}{}", CLOSURE_ENV_PREFIX, self.next_id)', "fmt_env(self.next_id)", 1)],
-           obligation="the name is the one of the current ordinal, and the ordinal moves on by one",
-           contract="requires old(self).next_id < usize::MAX,\nensures final(self).next_id == old(self).next_id + 1, final(self).context_stack@ == old(self).context_stack@,\n"
-                    "  r.0@ == env_name(match hint { Some(h) => Some(h@), None => None }, old(self).next_id as int),"),
+           obligation="the name is the one of an ordinal at or after the current one that NO type of the program has, and the counter moves past it",
+           contract="ensures final(self).next_id > old(self).next_id, final(self).context_stack@ == old(self).context_stack@, final(self).types@ == old(self).types@,\n"
+                    "  r.0@ == env_name(match hint { Some(h) => Some(h@), None => None }, (final(self).next_id - 1) as int),\n"
+                    "  !old(self).types@.contains(r.0@),      // C19: never the name of a struct / enum of the program",
+           loop_fn=lambda k, header, kw: "invariant self.next_id >= old(self).next_id, self.context_stack@ == old(self).context_stack@, self.types@ == old(self).types@,"),
         Fn(file=L, name="push_context_name", container="State", contract="ensures final(self).next_id == old(self).next_id, final(self).context_stack@ == old(self).context_stack@.push(name),",
            obligation="entering a naming context leaves the counter alone"),
         Fn(file=L, name="pop_context_name", container="State", contract="ensures final(self).next_id == old(self).next_id,",
